@@ -110,6 +110,8 @@ def run_case(ctx, case):
 
 def _run_case(ctx, case):
     from curtsies.formatstring import FmtStr
+    if case.get("twin_first"):
+        _run_case(ctx, dict(case, spec=case["twin_first"], twin_first=None))
     spec, method = case["spec"], case["method"]
     args, kwargs = tuple(case.get("args", ())), dict(case.get("kwargs", {}))
     F = obs.spec_cells(spec)
@@ -302,8 +304,12 @@ def run(ctx):
             a.update(rng.choice(obs.PALETTE) if rng.random() < .6 else {})
             spec.append([t, a])
         text = "".join(t for t, _ in spec)
+        tw = obs.twin(spec, rng)
         for m, a, kw in calls_for(text):
-            run_case(ctx, {"spec": spec, "method": m, "args": list(a), "kwargs": kw})
+            case = {"spec": spec, "method": m, "args": list(a), "kwargs": kw}
+            if tw is not None and rng.random() < .2:
+                case["twin_first"] = tw
+            run_case(ctx, case)
         ctx.count("random_layouts")
         items = [rng.choice(["", "x", "yz"]) if rng.random() < .4 else obs.rand_spec(rng, 2, 3, "ab ", palette=obs.PALETTE)
                  for _ in range(rng.randint(0, 4))]
